@@ -131,7 +131,7 @@ def _invalidated(eng, ci: ClassInfo, name: str) -> bool:
 
 def memo_rules(eng, res, rule="R-MEMO", only_classes=None, only_modules=None) -> int:
     res.doc(rule, "memoising decorators: no memo of a value that depends on state re-assigned after construction; no memoised factory of objects that are changed after they are handed out")
-    n = 0
+    n = derived_rules(eng, res, rule, only_classes)
     for fi in memoised(eng):
         ci = fi.enclosing_class()
         if only_classes is not None or only_modules is not None:
@@ -170,6 +170,106 @@ def memo_rules(eng, res, rule="R-MEMO", only_classes=None, only_modules=None) ->
                 why.append(f".{a} is changed in {w}")
             res.ob(rule, fi, f"shared:{fi.qualname.split('.', 1)[-1]}:{rc.name}", f"`@{kind}` does not hand the same `{rc.name}` object to several callers when such objects are changed after construction", fi.node, ok,
                    "; ".join(why) + " — every caller with equal arguments receives the very same object")
+    return n
+
+
+# attributes whose re-assignment after construction is a deliberate *drop* of a source text, with the reason (one line each)
+DERIVED_EXEMPT = {
+    "_raw_text": "the text a node was parsed from: every field is derived from it once; the mirror sets it to None so that printers re-derive the text from the parts",
+}
+
+
+def _ctor_taint(eng, init: FuncInfo):
+    """for every `self.X = e` in a constructor: the attributes of `self` the stored value was computed from (through the
+    constructor's locals; flow-insensitive fixpoint).  A plain copy `self.X = self.A` / `self.X = <parameter>` is not a
+    derivation: only values *computed* from A (a call, an operator, a comprehension … over A) go stale when A changes."""
+    local_src = {}
+    stores = {}
+    changed = True
+    assigns = []
+    for n in own_nodes(init.node):
+        if isinstance(n, ast.Assign):
+            for t in n.targets:
+                assigns.append((t, n.value, n))
+        elif isinstance(n, (ast.AugAssign, ast.AnnAssign)) and n.value is not None:
+            assigns.append((n.target, n.value, n))
+        elif isinstance(n, ast.For):
+            assigns.append((n.target, n.iter, n))
+
+    def reads(e):
+        out = set()
+        for x in ast.walk(e):
+            if isinstance(x, ast.Attribute) and isinstance(x.value, ast.Name) and x.value.id == "self" and isinstance(x.ctx, ast.Load):
+                out.add(x.attr)
+            elif isinstance(x, ast.Name) and isinstance(x.ctx, ast.Load) and x.id in local_src:
+                out |= local_src[x.id]
+        return out
+
+    while changed:
+        changed = False
+        for t, v, n in assigns:
+            r = reads(v)
+            names = [x.id for x in ast.walk(t) if isinstance(x, ast.Name) and x.id != "self"] if not isinstance(t, ast.Attribute) else []
+            for nm in names:
+                if not r <= local_src.get(nm, set()):
+                    local_src[nm] = local_src.get(nm, set()) | r
+                    changed = True
+    for t, v, n in assigns:
+        if isinstance(t, ast.Attribute) and isinstance(t.value, ast.Name) and t.value.id == "self":
+            computed = not isinstance(v, (ast.Name, ast.Attribute, ast.Constant))
+            r = reads(v) if computed else set()
+            if isinstance(v, ast.Name) and v.id in local_src:
+                r = set(local_src[v.id])
+            stores.setdefault(t.attr, (set(), n))[0].update(r - {t.attr})
+    return stores
+
+
+def derived_rules(eng, res, rule="R-MEMO", only_classes=None) -> int:
+    """M-DERIVED: a field a constructor *computes* from another field A of the same object is a memo of A: if A is
+    re-assigned after construction somewhere in the package, the same function must re-assign the derived field too
+    (or the derived field is never read outside the constructor)."""
+    n = 0
+    for ci in sorted(eng.prog.classes.values(), key=lambda c: c.name):
+        if only_classes is not None and not any(eng.prog.is_subclass(ci, b) for b in only_classes):
+            continue
+        init = ci.method("__init__")
+        if init is None:
+            continue
+        later = _stores_outside_ctor(eng, ci)
+        if not later:
+            continue
+        stores = _ctor_taint(eng, init)
+        for x, (srcs, node) in sorted(stores.items()):
+            stale = sorted(a for a in srcs if a in later and a not in DERIVED_EXEMPT and a != x)
+            if not stale:
+                continue
+            # read anywhere outside the constructor?
+            read = False
+            for fi in eng.prog.all_functions():
+                if fi.outermost() is init:
+                    continue
+                for y in own_nodes(fi.node):
+                    if isinstance(y, ast.Attribute) and y.attr == x and isinstance(y.ctx, ast.Load):
+                        read = True
+                        break
+                if read:
+                    break
+            if not read:
+                continue
+            n += 1
+            res.unit(init)
+            bad = []
+            for a in stale:
+                where = later[a]
+                fq = where.split(" line ")[0]
+                f2 = eng.prog.functions.get(fq)
+                redone = False
+                if f2 is not None:
+                    redone = any(isinstance(y, ast.Attribute) and y.attr == x and isinstance(y.ctx, ast.Store) for y in own_nodes(f2.node))
+                if not redone:
+                    bad.append(f"computed from self.{a} at construction; self.{a} is re-assigned in {where} and .{x} is not re-computed there")
+            res.ob(rule, init, f"derived:{ci.name}.{x}", f"a field the constructor computes from other fields ({', '.join('.' + a for a in stale)}) is re-computed wherever those are re-assigned", node, not bad,
+                   "; ".join(bad[:2]) + " — the stored value describes the object as it was constructed")
     return n
 
 
